@@ -52,6 +52,16 @@ def cases(tier, seed):
                 for cstyle in GAUGE_CSTYLES:
                     for r in range(2 if quick else 10):
                         yield dict(kind='gauge', L=L, i=i, ustyle=ustyle, uidx=k, cstyle=cstyle, seed=s())
+    # larger systems: the gauge blocks of the right-connected nodes that carry a third orbital only exist for L >= 7
+    # (rotated pair i with L//2+1 <= i <= L-3); complex unitaries, every pair
+    for L in ((7,) if quick else (7, 8)):
+        for i in range(L - 1):
+            for k, ustyle in enumerate(USTYLES[:2] if quick else USTYLES):
+                for r in range(1 if quick else 3):
+                    yield dict(kind='gauge', L=L, i=i, ustyle=ustyle, uidx=k, cstyle=GAUGE_CSTYLES[0], seed=s())
+    # spin-orbital explicit construction: two distinct sites in the right half first occur for L = 5
+    for r in range(4 if quick else 12):
+        yield dict(kind='spin', L=5, style=('complex', 'real', 'sparse', 'symmetric')[r % 4], explicit_only=True, seed=s())
 
 
 def _dense(op, L, dloc):
